@@ -66,6 +66,8 @@ impl RowsetWriter {
                 guard.insert(path.as_ref().to_path_buf(), Bytes::from(data));
             }
             _ => {
+                #[cfg(feature = "verif")]
+                crate::verif::crash_point("colfile.before_create", path.as_ref());
                 let file = OpenOptions::new()
                     .write(true)
                     .create_new(true)
@@ -75,9 +77,13 @@ impl RowsetWriter {
                 let mut writer = BufWriter::new(file);
                 writer.write_all(&data).await?;
                 writer.flush().await?;
+                #[cfg(feature = "verif")]
+                crate::verif::crash_point("colfile.written", path.as_ref());
 
                 let file = writer.into_inner();
                 file.sync_data().await?;
+                #[cfg(feature = "verif")]
+                crate::verif::crash_point("colfile.synced", path.as_ref());
             }
         }
 
@@ -88,6 +94,8 @@ impl RowsetWriter {
         if !io_backend.is_in_memory() {
             File::open(path.as_ref()).await?.sync_data().await?;
         }
+        #[cfg(feature = "verif")]
+        crate::verif::crash_point("rowset.dir_synced", path.as_ref());
         Ok(())
     }
 
